@@ -84,15 +84,16 @@ FindNode(m) ==
   ELSE IF m.dist = "over" THEN Rej("Overflow")
   ELSE IF m.dist = "gt256" THEN Rej("FINDNODE request distance invalid")
   ELSE ListEnd(m)
-\* the inner list header is decoded (must be a list that fits), its length is NOT used: records are parsed until the OUTER
-\* payload is empty -- so records that follow the inner list (inner = "short") are taken as further records of the response
+\* the inner list header is decoded (must be a list that fits) and must cover exactly the rest of the payload (the record list is
+\* the last field) -- on the pinned tree its length was not used and records were parsed until the OUTER payload was empty, so
+\* records that followed the inner list (inner = "short") were taken as further records of the response (F10, repaired)
 Nodes(m) ==
   IF IntErr(m.seq) # "none" THEN Rej(IntErr(m.seq))
   ELSE IF m.arity = "missing" THEN Rej("InputTooShort")
   ELSE IF m.inner = "long" THEN Rej("InputTooShort")
   ELSE IF m.inner = "str" THEN Rej("Invalid format of header")
+  ELSE IF m.inner = "short" \/ m.arity = "extra" THEN Rej("Invalid length of the records list")
   ELSE IF m.nrec > 0 /\ m.recq # "valid" THEN Rej("record")
-  ELSE IF m.arity = "extra" THEN Rej("Invalid format of header")     \* the extra string item is taken for a record
   ELSE Acc
 Talk(m) == ListEnd(m)
 
@@ -136,7 +137,7 @@ Exact(m) == WellFormed(m) /\ m.ip \notin {"mapped", "compat", "loop"}
 Unconstrained(m) == Required(m) = {} /\ ~WellFormed(m)
 
 \* the design obligations (checked by TLC over all of Cases)
-DesignStrict(m) == (Required(m) \ {"InnerListLength"}) # {} => ~Verdict(m).acc
+DesignStrict(m) == Required(m) # {} => ~Verdict(m).acc
 DesignInnerListLength(m) == "InnerListLength" \in Required(m) => ~Verdict(m).acc
 DesignExact(m)  == WellFormed(m) => Verdict(m).acc
 DesignOther(m)  == Other(m) # {} => ~Verdict(m).acc          \* not demanded by C06; documents what the code does
